@@ -48,6 +48,8 @@ def cases(tier):
         out.append(dict(name="ranks_tiny_alpha_B%d" % B, kind="ranks", backend="cvc5", B=B, region="alpha<2^-52", weight=40))
     for B, nt in ((2, 1), (2, 2), (3, 1)) if tier == "quick" else ((2, 1), (2, 2), (3, 1), (3, 2)):
         out.append(dict(name="iboot_B%d_n%d" % (B, nt), kind="iboot", B=B, n_test=nt, weight=40 * nt))
+    # the non-default correct_from_presidential option shifts the bootstrapped margins before they are clipped
+    out.append(dict(name="iboot_presidential_B2_n1", kind="iboot", B=2, n_test=1, presidential=True, weight=40))
     for B in (2, 3) if tier == "quick" else (2, 3, 4, 5):
         for aggs in (["postal_code", "county_fips", "unit"], ["postal_code", "county_classification", "unit"]):
             for alphas in ([0.5, 0.9], [0.7, 0.99]):
@@ -201,6 +203,17 @@ def run_iboot(ctx, case):
             return d
 
         rep, non, unx = frame(NTR, "r", 1), frame(NT, "n", 0), frame(0, "u", 0)
+        if case.get("presidential"):
+            m.correct_from_presidential = True
+            non["results_margin"] = _col([ctx.real("n_rm_%d" % i, -10 ** 4, 10 ** 4) for i in range(NT)])
+            non["results_weights"] = [5000.0 + i for i in range(NT)]
+            m.pres_predictions = pd.DataFrame({
+                "geographic_unit_fips": ["n%d" % i for i in range(NT)],
+                "pred_margin": _col([ctx.real("p_pm_%d" % i, -10 ** 4, 10 ** 4) for i in range(NT)]),
+                "pred_turnout": [8000.0 + i for i in range(NT)],
+                "results_margin": _col([ctx.real("p_rm_%d" % i, -10 ** 4, 10 ** 4) for i in range(NT)]),
+                "results_weights": [6000.0 + i for i in range(NT)],
+                "baseline_normalized_margin": [0.05] * NT})
         m.compute_bootstrap_errors(rep, non, unx)
     finally:
         L.uninstall()
